@@ -93,11 +93,25 @@ def h_cusip(ctx, classes):
     x = ctx.str("x", 1, CUSIP_ALPHA)
     ctx.assume(x != chk)
     ctx.check("CUSIP with a changed check character fails validation", utils.validate_cusip(base + x) is False)
+
+
+def h_cusip2isin(ctx, classes):
+    """conversion of a valid CUSIP (the composition validate_cusip + isin_checksum, each covered on its own above)"""
+    base = split_str(ctx, "b", classes)
+    chk = utils.cusip_checksum(base)
     isin = utils.cusip2isin(base + chk)
     ctx.observe("isin", isin)
     ctx.check("cusip2isin embeds the CUSIP", isin[2:11] == base + chk)
     ctx.check("cusip2isin yields US prefix by default", isin[:2] == "US")
     ctx.check("cusip2isin result validates", utils.validate_isin(isin) is True)
+    bad = False
+    x = ctx.str("x", 1, ALNUM)
+    ctx.assume(x != chk)
+    try:
+        utils.cusip2isin(base + x)
+    except ValueError:
+        bad = True
+    ctx.check("cusip2isin refuses a CUSIP whose check digit is wrong", bad)
 
 
 def h_sedol(ctx, classes):
@@ -156,7 +170,7 @@ def h_wronglen(ctx, kind, n):
         ctx.check("ISIN of wrong length never validates", utils.validate_isin(s) is False)
 
 
-HARNESSES = dict(cusip=h_cusip, sedol=h_sedol, isin=h_isin, isin_badprefix=h_isin_badprefix, wronglen=h_wronglen)
+HARNESSES = dict(cusip=h_cusip, cusip2isin=h_cusip2isin, sedol=h_sedol, isin=h_isin, isin_badprefix=h_isin_badprefix, wronglen=h_wronglen)
 
 META = dict(
     bounds=dict(cusip="8 symbolic chars over [0-9A-Z*@#]", sedol="6 symbolic chars over SEDOL consonants+digits",
@@ -173,44 +187,47 @@ def _patterns(n, k, leading, rest):
 
 
 def instances(tier, seed):
-    import random
+    import random, itertools
     rnd = random.Random(seed)
     out = []
     full = tier != "quick"
     mk = lambda name, h, params, **opts: out.append(dict(name=name, harness=h, fn=HARNESSES[h], params=params, opts=dict(dict(mode="inc", wall_s=900 if not full else 3000, max_paths=300000), **opts)))
-    # CUSIP: alphanumeric space complete (split by the class of the first 3 characters for parallelism)
+    # CUSIP check digit: the alphanumeric space completely (split by the class of the first 3 characters for parallelism)
     for pat in _patterns(8, 3, "dl", "a"):
         mk(f"cusip[{pat}]", "cusip", dict(classes=pat))
-    # CUSIP with * @ #: one special character at each position (thorough: all 8; quick: 2 seed-rotated), others any
+    # CUSIP with * @ #: one special character at a position, the rest any (thorough: all 8 positions; quick: 2 seed-rotated
+    # positions with four of the other positions restricted to digits)
     pos = list(range(8)) if full else rnd.sample(range(8), 2)
     for p in pos:
-        for lead in (["d", "l"] if full else [rnd.choice("dl")]):
-            pat = ["a"] * 8
-            pat[p] = "s"
-            q = (p + 1) % 8
-            pat[q] = lead
-            pat = "".join(pat)
-            mk(f"cusip[{pat}]", "cusip", dict(classes=pat))
+        pat = ["a"] * 8
+        if not full:
+            for q in rnd.sample([i for i in range(8) if i != p], 4):
+                pat[q] = "d"
+        pat[p] = "s"
+        pat = "".join(pat)
+        mk(f"cusip[{pat}]", "cusip", dict(classes=pat))
     if full:
-        mk("cusip[ssaaaaaa]", "cusip", dict(classes="ssdddddd"))
-        mk("cusip[cccccccc]-budgeted", "cusip", dict(classes="cccccccc"), wall_s=1200)
+        mk("cusip[ssdddddd]", "cusip", dict(classes="ssdddddd"))
+        mk("cusip[sdsdsdsd]", "cusip", dict(classes="sdsdsdsd"))
+    # cusip2isin: composition, on class patterns (quick: all digits, all letters, 2 seeded; thorough: first 4 free classes)
+    pats = ["dddddddd", "llllllll"] + ["".join(rnd.choice("dl") for _ in range(8)) for _ in range(2)]
+    if full:
+        pats = sorted(set(pats + ["".join(p) + "aa" for p in itertools.product("dl", repeat=6)]))
+    for pat in pats:
+        mk(f"cusip2isin[{pat}]", "cusip2isin", dict(classes=pat))
     for pat in _patterns(6, 2, "dL", "S"):
         mk(f"sedol[{pat}]", "sedol", dict(classes=pat))
     prefixes = ["US", "GB"] if not full else ["US", "GB", "DE", "JP", "XS"]
     for pfx in prefixes:
-        if full:
-            pats = _patterns(9, 4, "dl", "a")
+        if full and pfx in ("US", "GB"):
+            pats = _patterns(9, 5, "dl", "a")           # complete alphanumeric space, 32 slices
         else:
-            # quick: digits/letters fixed at 5 seed-rotated positions (all 32 combinations), 4 positions free
-            fixed = sorted(rnd.sample(range(9), 5))
+            # digits/letters fixed at 7 seed-rotated positions, 2 positions free: 10 (quick) / 24 seeded class patterns
             pats = []
-            import itertools
-            for combo in itertools.product("dl", repeat=5):
-                pt = ["a"] * 9
-                for i, k in zip(fixed, combo):
-                    pt[i] = k
-                pats.append("".join(pt))
-            pats = rnd.sample(pats, 12)
+            for _ in range(10 if not full else 24):
+                free = rnd.sample(range(9), 2)
+                pats.append("".join("a" if i in free else rnd.choice("dl") for i in range(9)))
+            pats = sorted(set(pats + ["ddddddddd", "lllllllll"]))
         for pat in pats:
             mk(f"isin[{pfx},{pat}]", "isin", dict(prefix=pfx, classes=pat))
     if full:
